@@ -141,7 +141,10 @@ def run(chk: Check, model):
     kinds = {"advance": 0, "PHASE": 0, "blocking": 0, "BUFFER": 0}
     for rz in raises:
         for k in kinds:
-            if (mentions(rz.guard, k) or any(x[0] == "sym" and x[1].endswith(k) for x in T.walk(rz.guard))) and not mentions(rz.guard, "TrainableDist"):
+            g = rz.guard
+            for a in [a for a in flow.bool_atoms(g, []) if mentions(a, "TrainableDist")]:
+                g = T.assume(g, a, False)  # the rejection must not depend on the delay being trainable
+            if g != T.FALSE and (mentions(g, k) or any(x[0] == "sym" and x[1].endswith(k) for x in T.walk(g))):
                 kinds[k] += 1
     for k, c in kinds.items():
         chk.add("C12.reject", f"{k} rejected", c >= 1, f"no raise guarded by {k} in the generator", chk.loc(f_ep))
